@@ -3,9 +3,9 @@
    nat, N, Z, positive, byte stay extracted inductive datatypes. *)
 From Coq Require Import Extraction ExtrOcamlBasic.
 From Verif Require Import Base.Bytes Base.Utf8 Bytes.FileModel Lex.Lexer Lex.Reference Bytes.Split Bytes.Quote.
-From Verif Require Import Tree.Tree Tree.PosLang Tree.Walk Tree.PosProofs Tree.Checkers Gen.Schema Gen.PosSpec Gen.PosImpl Gen.WalkImpl Tree.Printer Gen.PrintProg Gen.Globals Skel.Skeleton Gen.SkeletonData Parse.ExprModel Parse.Span Parse.SpanProofs Parse.Respell Parse.Recovery Parse.Spell Parse.Canon Parse.TypeModel Parse.TypeSpan.
+From Verif Require Import Tree.Tree Tree.PosLang Tree.Walk Tree.PosProofs Tree.Checkers Gen.Schema Gen.PosSpec Gen.PosImpl Gen.WalkImpl Tree.Printer Gen.PrintProg Gen.Globals Skel.Skeleton Gen.SkeletonData Parse.ExprModel Parse.Span Parse.SpanProofs Parse.Respell Parse.Recovery Parse.Spell Parse.Canon Parse.TypeModel Parse.TypeSpan Parse.TypeRecover.
 Extraction "models.ml" Reference.ref_lex FileModel.position_of FileModel.resolve_pos FileModel.error_string
   Split.split Quote.quote_string Quote.quote_bytes Quote.quote_ident Lexer.next_token Lexer.init_lexer Lexer.lex_all Lexer.lex_all_np Utf8.decode_rune Utf8.encode_rune Utf8.is_space_rune
   Tree.wt PosLang.pe_impl PosLang.pe_spec Walk.walk Walk.walk_many Walk.to_rose Walk.inspect Walk.preorder
   Schema.schema Schema.ifaces PosSpec.pos_spec PosImpl.pos_impl WalkImpl.walk_impl Printer.sql Printer.info Printer.hand_modelled PrintProg.sql_prog PrintProg.prec_table PrintProg.string_consts
-  Checkers.schema_ok PosProofs.pos_tables_ok Checkers.walk_table_ok Checkers.pos_table_failures Checkers.walk_table_failures Checkers.printer_ok Checkers.unread_fields Checkers.bad_separators Checkers.prec_missing Checkers.printer_failures Checkers.globals_ok Globals.global_vars Globals.global_writes Globals.go_statements Globals.concurrency_imports Globals.receiver_field_writes Skeleton.escaping Skeleton.is_postfix Skeleton.smem SkeletonData.skeleton SkeletonData.entry_points ExprModel.parse_expr ExprModel.to_tree SpanProofs.input_okb Span.epos Span.eend Respell.same_tokens_cib Respell.same_tokensb Recovery.handle Recovery.np_scan Canon.canb Spell.spell Respell.strip TypeModel.parse_type TypeModel.ty_tree TypeModel.ty_pos TypeModel.ty_end TypeSpan.type_input_okb.
+  Checkers.schema_ok PosProofs.pos_tables_ok Checkers.walk_table_ok Checkers.pos_table_failures Checkers.walk_table_failures Checkers.printer_ok Checkers.unread_fields Checkers.bad_separators Checkers.prec_missing Checkers.printer_failures Checkers.globals_ok Globals.global_vars Globals.global_writes Globals.go_statements Globals.concurrency_imports Globals.receiver_field_writes Skeleton.escaping Skeleton.is_postfix Skeleton.smem SkeletonData.skeleton SkeletonData.entry_points ExprModel.parse_expr ExprModel.to_tree SpanProofs.input_okb Span.epos Span.eend Respell.same_tokens_cib Respell.same_tokensb Recovery.handle Recovery.np_scan Canon.canb Spell.spell Respell.strip TypeModel.parse_type TypeModel.ty_tree TypeModel.ty_pos TypeModel.ty_end TypeSpan.type_input_okb TypeRecover.parse_typeR TypeRecover.rty_tree TypeRecover.bads.
